@@ -10,7 +10,7 @@ mkdir -p $OUT
 echo "== demo WITHOUT change"; (cd $SRC && PYTHONPATH=$WT/src timeout 300 /venv/bin/python -m pytest -q -p no:cacheprovider demo_test.py 2>&1 | tail -2) ; D0=${PIPESTATUS[0]}
 (cd $SRC && PYTHONPATH=$WT/src timeout 300 /venv/bin/python demo_test.py >/dev/null 2>&1); S0=$?
 git -C $WT apply $SRC/patch.diff || { echo "PATCH DOES NOT APPLY"; git -C /repo worktree remove --force $WT; exit 2; }
-echo "== pytest WITH change"; (cd $WT && /venv/bin/python -m pytest -q -p no:cacheprovider --timeout=900 2>&1 | tail -1) | tee $OUT/pytest.txt
+echo "== pytest WITH change"; (cd $WT && PYTHONPATH=$WT/src /venv/bin/python -m pytest -q -p no:cacheprovider --timeout=900 2>&1 | tail -1) | tee $OUT/pytest.txt
 echo "== demo WITH change"; (cd $SRC && PYTHONPATH=$WT/src timeout 300 /venv/bin/python -m pytest -q -p no:cacheprovider demo_test.py 2>&1 | tail -2)
 (cd $SRC && PYTHONPATH=$WT/src timeout 300 /venv/bin/python demo_test.py >/dev/null 2>&1); S1=$?
 echo "script-mode exit codes: without=$S0 with=$S1"
